@@ -1048,7 +1048,15 @@ def check_extent_len(ctx):
     C05.check_len(ctx, "C10.extent-len")
 
 
+def check_journal_validity(ctx):
+    """the decoder accepts every image the documented layout allows and the encoder can write (extents may touch, an extent may
+    end at the last block); rejecting one silently falls back to the older slot. Same rule as C03.journal-validity."""
+    from rules import C03
+    C03.check_journal_validity(ctx, "C10.journal-validity", None)
+
+
 def check(ctx):
+    check_journal_validity(ctx)
     check_marker_writers(ctx)
     check_extent_len(ctx)
     check_bounds(ctx)
